@@ -13,7 +13,22 @@ def zc(n):
 
 
 NAMES = ["a", "b", "c", "n", "k", "acc", "tmp", "x1", "cnt", "s", "t", "w", "arr", "lst", "flag"]
-TEXTS = ["", "x", "ab", "hi there", "é", "日本", "a-b", "v=", "[", "1 2"]
+TEXTS = ["", "x", "ab", "hi there", "é", "ne\u0301e", "日本", "a-b", "v=", "[", "1 2", "a\U0001F44D\U0001F3FDb"]
+# a string is a sequence of grapheme clusters (loops, indices and pop go by cluster). The reference interpreter's strings are
+# lists of numbers: a cluster of several code points is one number there (a private-use code), translated back on output.
+CLUSTERS = {"e\u0301": "\U000F0001", "\U0001F44D\U0001F3FD": "\U000F0002"}
+
+
+def enc(t):
+    for k, v in CLUSTERS.items():
+        t = t.replace(k, v)
+    return t
+
+
+def dec(t):
+    for k, v in CLUSTERS.items():
+        t = t.replace(v, k)
+    return t
 
 
 class Scope:
@@ -113,8 +128,8 @@ class Gen:
         if strs and r < 0.9:
             v = self.rng.choice(strs)
             return "str", C("EVar", v), "$" + v
-        t = self.rng.choice(TEXTS[1:6])
-        return "str", C("ELit", [C("PText", t)]), f'"{t}"'
+        t = self.rng.choice(TEXTS[1:7])
+        return "str", C("ELit", [C("PText", enc(t))]), f'"{t}"'
 
     def cmp_expr(self, sc):
         ty, a, sa = self.atom_cmp(sc)
@@ -127,8 +142,8 @@ class Gen:
                 v = self.rng.choice(strs)
                 b, sb = C("EVar", v), "$" + v
             else:
-                t = self.rng.choice(TEXTS[1:6])
-                b, sb = C("ELit", [C("PText", t)]), f'"{t}"'
+                t = self.rng.choice(TEXTS[1:7])
+                b, sb = C("ELit", [C("PText", enc(t))]), f'"{t}"'
             op = self.rng.choice(["CEq", "CNe"])
         sym = {"CEq": "==", "CNe": "!=", "CLt": "<", "CLe": "<=", "CGt": ">", "CGe": ">="}[op]
         self.features.add("cmp" + sym)
@@ -169,7 +184,7 @@ class Gen:
                 self.features.add("interpolation")
             else:
                 t = self.rng.choice(TEXTS[1:])
-                pieces.append(C("PText", t))
+                pieces.append(C("PText", enc(t)))
                 src += t
         return C("ELit", pieces), '"' + src + '"'
 
@@ -292,9 +307,9 @@ class Gen:
                 return [C("SSet", v, None, e)], [f"{v} = {s}"]
             if self.loop_depth > 1 or v in self.iterating:
                 return self.stmt(sc)       # no growth inside nested loops or of what is being iterated: sizes stay linear
-            t = rng.choice(TEXTS[1:5])
+            t = rng.choice(TEXTS[1:6])
             self.features.add("push-string")
-            return [C("SPush", v, C("ELit", [C("PText", t)]))], [f'push ${v} "{t}"']
+            return [C("SPush", v, C("ELit", [C("PText", enc(t))]))], [f'push ${v} "{t}"']
         if deep:
             es = [self.echo_atom(sc)]
             return [C("SEcho", [t for t, _ in es])], ["echo " + " ".join(s for _, s in es)]
